@@ -528,3 +528,40 @@ def grouping_form(t, top=True):
 def one_variable_atoms(t):
     """every comparison is between one variable and one literal (the domain of the property statements)"""
     return all(a[1][0] != a[3][0] for a in atoms_of(strip_parens(t)))
+
+
+RULE_NAMES = ["LEFT_PARENTHESIS", "RIGHT_PARENTHESIS", "QUOTED_STRING", "OP", "BOOLOP", "IN", "NOT", "VARIABLE", "WS", "END"]
+
+
+def tokenizer_probe(rng, s):
+    """(rule, position) for a direct tokenizer comparison: mostly token starts with the rule that could match there"""
+    pos = rng.randrange(len(s) + 1)
+    if rng.random() < 0.7:
+        starts = [i for i in range(len(s) + 1)
+                  if i == 0 or i == len(s) or s[i - 1] in " \t()'\"=<>~!" or s[i] in " \t()'\"=<>~!\n"]
+        pos = rng.choice(starts)
+    rule = rng.choice(RULE_NAMES)
+    if rng.random() < 0.6:
+        c = s[pos:pos + 1]
+        rest = s[pos:]
+        if c == "":
+            rule = "END"
+        elif c == "(":
+            rule = "LEFT_PARENTHESIS"
+        elif c == ")":
+            rule = "RIGHT_PARENTHESIS"
+        elif c in "'\"":
+            rule = "QUOTED_STRING"
+        elif c in "=<>!~":
+            rule = "OP"
+        elif c in " \t":
+            rule = "WS"
+        elif rest.startswith(("and", "or")):
+            rule = "BOOLOP"
+        elif rest.startswith("in"):
+            rule = rng.choice(["IN", "IN", "VARIABLE"])
+        elif rest.startswith("not"):
+            rule = "NOT"
+        elif c.isalpha():
+            rule = "VARIABLE"
+    return rule, pos
